@@ -12,6 +12,7 @@ mod gen_codes;
 mod gen_fsm;
 mod gen_kernels;
 mod gen_sasl;
+mod gen_txn;
 
 use std::path::{Path, PathBuf};
 
@@ -53,6 +54,7 @@ fn main() {
     gen_codes::generate(&mut src, &mut out);
     gen_fsm::generate(&mut src, &mut out);
     gen_sasl::generate(&mut src, &mut out);
+    gen_txn::generate(&mut src, &mut out);
 
     for w in &out.written {
         println!("rs2lean: {}", w);
